@@ -158,7 +158,9 @@ class SolversFrame(Ob):
         Mt, Rt = src_.transientTerm(phi, dt, 1.0)
         terms = [(Mt, Rt), -z['Md'], z['Mu'], z['Rg']]
         keep = list(terms)
-        f = Frame(w, (terms, [Rt, z['Rg']], w.mesh))
+        # a second variable derived from phi (not passed to the solver): nothing reachable from it may be written either
+        bystander = phi.copy()
+        f = Frame(w, (terms, [Rt, z['Rg']], w.mesh, bystander))
         r = pde.solvePDE(phi, terms)
         o = f.done(None)
         o['terms_list_unchanged'] = (len(terms) == len(keep) and all(a is b for a, b in zip(terms, keep)))
